@@ -158,7 +158,9 @@ func (s Slice) Interface() any {
 
 	t := reflect.MakeSlice(reflect.SliceOf(elementType), len(s.value), len(s.value))
 	for i, element := range s.value {
-		t.Index(i).Set(reflect.ValueOf(InterfaceOf(element)))
+		if v := InterfaceOf(element); v != nil {
+			t.Index(i).Set(reflect.ValueOf(v))
+		}
 	}
 	return t.Interface()
 }
